@@ -318,6 +318,16 @@ fn case(m: &mut Mon, r: &mut Rng, idx: u64) {
                     (n, gen::small_mag(r))
                 }
                 4 => (vec![r.u64() >> 11], vec![r.u64() >> 11]), // both < 2^53: hardware cross-check
+                5 => {
+                    // the top binades of f32 and f64: bit_len(num) - bit_len(den) is 127..129 / 1023..1025, with a
+                    // numerator whose leading bits may be below or above those of the denominator
+                    let dn = 1 + r.usize(2);
+                    let dl = { let mut d = gen::shape(r, dn); if gen::nlimbs(&d) == 0 { d = vec![3]; } d };
+                    let nm = nat(&[r.u64() | 1, r.u64() >> r.below(64)]);
+                    let target = *r.pick(&[127i64, 128, 129, 1023, 1024, 1025]);
+                    let sh = target - (nm.bits() as i64 - nat(&dl).bits() as i64);
+                    (limbs_of_nat(&(nm << sh.max(0) as usize)), dl)
+                }
                 _ => (gen::mag(r, 40), gen::mag(r, 40)),
             };
             if gen::nlimbs(&dl) == 0 {
@@ -350,11 +360,11 @@ fn case(m: &mut Mon, r: &mut Rng, idx: u64) {
                         continue;
                     }
                     let lg = dvh::ival::floor_log(&x.abs(), 2);
-                    if lg >= emax - 1 {
-                        continue; // at the overflow threshold: either infinity or the largest finite value is acceptable
+                    let ulp = pow_q(2, (lg - mant + 1).max(emin));
+                    if lg >= emax || x.abs() >= pow_q(2, emax) - &ulp * BigRational::from_integer(BigInt::from(4)) {
+                        continue; // at or above the overflow threshold: infinity or the largest finite value are both acceptable
                     }
                     ensure!(got.is_finite(), "fast_bound", "{} = {:e} for a finite value of magnitude 2^{}", what, got, lg);
-                    let ulp = pow_q(2, (lg - mant + 1).max(emin));
                     let gq = ieee::q_of_f64(got).unwrap();
                     ensure!((&gq - &x).abs() <= &ulp * BigRational::from_integer(BigInt::from(4)), "fast_bound", "{} = {:e} is more than 4 ulp away from the value", what, got);
                 }
